@@ -227,6 +227,7 @@ func c15RetypeSrc(r *runner.Rng) string {
 func init() {
 	corpus := []string{
 		"[Tuple(1, 2), Tuple(3, 4)]", "Tuple(1, 2) == Tuple(3, 4)", "len(filter([1, 2, 3], {Tuple(#) == Tuple(1)}))", "map(1..3, {Tuple(#, A)})", "Tuple(Tuple(A), Tuple(B))", "[Fast(1), Fast(1, 2)]",
+		"FnI8(I8 + 200 / 2)", "FnI8(I8 + 100)", "FnI8(-128)", "FnI8(I8 * 300 / 3)", "FnI8(127)", "FnI8(128 - 1)", "FnU8(255)", "FnU8(300 - 100)", "FnI8((AnyI % 5) + 200 / 2)",
 		"Half((AnyF + 1) * (7 / 2))", "FnF(-(AnyF + 1) + 7 / 2)", "FnF((AnyI + 1) * 7 / 2)", "FnF32((AnyF - 1) / (1 / 2 + 1))",
 		"A == 1", "S == \"a\"", "A == I64", "AnyI == A", "AnyI == 1", "AnyS == S", "A == AnyI", "I8 == 1", "X == 1", "1 == X",
 		"FnF(X + 7 / 2)", "FnF(AnyI + 7 / 2)", "FnF(AnyF + 7 / 2)", "FnF(AnyF * 3 / 2)", "Half(AnyF - 1 / 2)", "FnAny(AnyI + 7 / 2)", "FnI(AnyI + 1)", "FnF(1)", "FnU8(255)", "Half(3)", "FnI64(7 / 2)", "Fast(1, 2.5, \"a\")",
